@@ -126,7 +126,10 @@ def lin_points(case, trace):
     return pts
 
 
-def c26_threads(case, trace, final):
+def c26_threads(case, trace, final, observers=True):
+    """observers=False (line-granular runs, where an unlocked read can land in the middle of another thread's lock
+    block): the values returned by the pure observers get/len/contains - which the property does not talk about -
+    are not compared with the atomic reference"""
     ref = RefContainer(case["cls"], case.get("init", []))
     pts = lin_points(case, trace)
     expect = {}
@@ -146,6 +149,8 @@ def c26_threads(case, trace, final):
             if tid in expect and expect[tid]:
                 op, exp = expect[tid].pop(0)
                 got = ["raise"] if ev[0] == "raise" else ["ret", ev[1]]
+                if not observers and op[0] in ("get", "len", "contains"):
+                    continue
                 if got != exp:
                     if exp == ["raise"]:
                         return f"event {g}: thread {tid} {op}: second assignment to a not-disposed SingleAssignmentDisposable was accepted"
